@@ -111,3 +111,17 @@ Example C07_example_atomic :
   npk (w_log (trace_fn ex_d (mk_ert 0 None (Some (mk_sft 8 [("x", u8)]))) [VArr [VInt 3]] ex_wt)) = 1 /\
   w_err (trace_fn ex_d (mk_ert 0 None (Some (mk_sft 8 [("x", u8)]))) [VArr [VInt 3]] ex_wt) = false.
 Proof. vm_compute. repeat split; reflexivity. Qed.
+
+(* ------------------------------------------------------------------ tie by translation: the tracing function *)
+(* The public tracing function <prefix><dst>_trace_<ert> as REGENERATED from the template text of
+   barectf.c.j2 on every run (tools/c2coq.py -> Gen/CSkelFuns.v fn_trace), run by the semantics of
+   Tracer/CSkelTrace.v, is Model.trace_fn for every data stream type, event record type, argument
+   list and world: in particular the tracing-enabled test comes AFTER the entry clock sample and nothing else precedes it, and every later step is unconditional on the switch -
+   is what the theorems of this file speak about.  An edit of that template breaks this theorem or
+   the fail-closed translator before any differential run. *)
+From BT.Tracer Require Import CSkel CSkelTrace CSkelTraceProofs.
+From BT.Gen Require Import CSkelFuns.
+Theorem C07_trace_fn_is_the_translated_C :
+  forall d e args w, run_trace d skel_funs e args fn_trace w = Some (trace_fn d e args w).
+Proof. exact skel_trace. Qed.
+Print Assumptions C07_trace_fn_is_the_translated_C.
